@@ -4,8 +4,8 @@ package main
 
 import (
 	"fmt"
-	"math/big"
 	"go/types"
+	"math/big"
 	"sort"
 	"strings"
 
@@ -13,21 +13,21 @@ import (
 )
 
 type FuncVC struct {
-	Key         string
-	Fn          *ssa.Function
-	Contract    *Contract
-	Gen         *Gen
-	Obls        []*Obligation
-	Lines       []string
-	Notes       []string
-	Unsupported []string
-	SpecErrs    []string
+	Key          string
+	Fn           *ssa.Function
+	Contract     *Contract
+	Gen          *Gen
+	Obls         []*Obligation
+	Lines        []string
+	Notes        []string
+	Unsupported  []string
+	SpecErrs     []string
 	HavocCallees []string
-	Covers      []*Obligation // vacuity checks: must be SAT
-	ParamInfo   []ParamInfo
-	FindingFor  map[string]*attachedFinding
-	entryEval   func() *Eval
-	lemmaTypes  []types.Type
+	Covers       []*Obligation // vacuity checks: must be SAT
+	ParamInfo    []ParamInfo
+	FindingFor   map[string]*attachedFinding
+	entryEval    func() *Eval
+	lemmaTypes   []types.Type
 }
 
 type ParamInfo struct {
